@@ -28,7 +28,8 @@ ASSUMPTIONS = ['model computed by an independent walk of the real tree',
                'symbolic link may or may not be deleted']
 FLOORS = {'runs': 400, 'orphans_must': 600, 'protected_checked': 2000,
           'keep_runs': 100, 'audit_events': 500, 'lookalikes_checked': 800,
-          'symlinked_cache_dirs': 40, 'orphans_beside_renamed_source': 30}
+          'symlinked_cache_dirs': 40, 'orphans_beside_renamed_source': 30,
+          'cleanup_and_discovery_cases': 60}
 BATCH_TIMEOUT = 300
 
 IGN_DEFAULT = ['.git', '.svn', 'CVS', '{arch}', '.arch-ids', '_darcs']
@@ -96,7 +97,11 @@ def build_tree(rng, root, prefix):
             p = os.path.join(d, n)
             with open(p, 'w') as f:
                 if n.endswith('.py'):
-                    f.write('# source %s\n' % n)
+                    # (says when it is imported: test discovery loads some
+                    # of these)
+                    f.write('# source %s\nimport vworld_rt\n'
+                            'vworld_rt.file_imported(__name__, __file__)\n'
+                            % n)
                 else:
                     f.write('bytecode-ish %s %d\n' % (n, rng.randrange(99)))
             if rng.random() < 0.05:
@@ -345,6 +350,21 @@ def run_case(case):
         # audit records
         aud = [e for e in events if e['k'] == 'audit']
         C('audit_events', len(aud))
+        # "before discovery": no deletion after the first module of the
+        # tree has been loaded by test discovery (same process, one event
+        # sequence)
+        imports = [e for e in events if e['k'] == 'file.import']
+        if imports and aud:
+            first = min(imports, key=lambda e: (e['seq']))
+            late = [e for e in aud if e['pid'] == first['pid'] and
+                    e['seq'] > first['seq'] and
+                    e['ev'] in ('os.remove', 'os.unlink')]
+            C('cleanup_and_discovery_cases')
+            if late:
+                V('bytecode-deleted-after-discovery-began',
+                  'bytecode-cleanup-late',
+                  first_import=os.path.relpath(first['file'], root),
+                  late=[os.path.relpath(e['path'], root) for e in late][:5])
         for e in aud:
             p = os.path.realpath(e['path'])
             if e['ev'] in ('os.remove', 'os.unlink'):
